@@ -4,7 +4,7 @@ transform (after the callee's own division of the shift by ITS output spacing), 
 mask enters as a plain element-wise product; plus the wiring of Wavefront.to_fpm_and_back / babinet."""
 import ast
 from pyexpr2lean import Gen, Untranslatable, load, get_def, find_calls
-from gen_c03 import SymExec, Tup, scalar_funcs, transform_args, emit_scalar, positional, HEADER, typed, fact3
+from gen_c03 import SymExec, Tup, scalar_funcs, transform_args, emit_scalar, emit_fixed, positional, HEADER, typed, fact3, _strip
 
 M3 = 'Model.C03'
 PARAMS = 's0 s1 M0 M1 dx efl wavelength fpm_dx shift0 shift1'
@@ -14,24 +14,33 @@ def generate(repo):
     g = Gen('C05', imports=['PrysmVerif.Num', 'PrysmVerif.Model.C05'], header=HEADER)
     pr, _ = load(repo, 'prysm/propagation.py')
     emit_scalar(g, pr, 'Q_for_sampling', 'qForSampling', 'input_diameter prop_dist wavelength output_dx')
+    emit_fixed(g, pr, 'focus_fixed_sampling', 'ffs', {'mdft': 'mdft.dft2', 'czt': 'czt.czt2'})
+    emit_fixed(g, pr, 'unfocus_fixed_sampling', 'ufs', {'mdft': 'mdft.idft2', 'czt': 'czt.iczt2'})
 
     state = {}
 
-    def run():
-        if 'res' in state:
-            return state['res']
+    def run(mode='ndarray'):
+        if mode in state:
+            return state[mode]
         fn = get_def(pr, 'to_fpm_and_back')
         ex = SymExec(pr, scalar_funcs(pr, ('Q_for_sampling',)), inline=('focus_fixed_sampling', 'unfocus_fixed_sampling'))
-        env = {'wavefunction.shape': Tup(['s0', 's1']), 'fpm.shape': Tup(['M0', 'M1']), 'dx': 'dx', 'efl': 'efl',
-               'wavelength': 'wavelength', 'fpm_dx': 'fpm_dx', 'shift': Tup(['shift0', 'shift1'])}
+        env = {'wavefunction.shape': Tup(['s0', 's1']), 'dx': 'dx', 'efl': 'efl',
+               'wavelength': 'wavelength', 'shift': Tup(['shift0', 'shift1'])}
+        if mode == 'ndarray':
+            env.update({'fpm.shape': Tup(['M0', 'M1']), 'fpm_dx': 'fpm_dx'})
+        else:       # the mask is a Wavefront: it carries its own shape and sampling, fpm_dx is not given
+            env.update({'fpm:is_wavefront': True, 'fpm.data.shape': Tup(['M0', 'M1']), 'fpm.dx': 'fpm_dx'})
         res = ex.run(fn, env)
         inl = res.get('inlined', [])
         if [nm for nm, _ in inl] != ['focus_fixed_sampling', 'unfocus_fixed_sampling']:
             raise Untranslatable(f'legs are {[nm for nm, _ in inl]}')
         fwd = transform_args(inl[0][1], {'mdft': 'mdft.dft2', 'czt': 'czt.czt2'})
         back = transform_args(inl[1][1], {'mdft': 'mdft.idft2', 'czt': 'czt.iczt2'})
-        state['res'] = (res, fwd, back)
-        return state['res']
+        for _, sub in inl:
+            if sub.get('return') != '<field>':
+                raise Untranslatable('a leg does not return the untouched result of its transform')
+        state[mode] = (res, fwd, back)
+        return state[mode]
 
     def legs():
         res, fwd, back = run()
@@ -51,10 +60,8 @@ def generate(repo):
         fb.append(f'def fpmBackSamples{a} ({PARAMS} : K) : K := {s}')
     g.item('to_fpm_and_back', 'prysm/propagation.py:to_fpm_and_back', lambda: get_def(pr, 'to_fpm_and_back'), legs, '\n'.join(fb))
 
-    def mask_product():
-        res, fwd, back = run()          # Untranslatable here = not recognised (emitted as true, correspondence widened)
+    def leg_names():
         fn = get_def(pr, 'to_fpm_and_back')
-        prods = res.get('products', [])
         c1s, c2s = find_calls(fn, 'focus_fixed_sampling'), find_calls(fn, 'unfocus_fixed_sampling')
         if len(c1s) != 1 or len(c2s) != 1:
             raise Untranslatable('legs not called exactly once')
@@ -63,17 +70,65 @@ def generate(repo):
         back_name = [st.targets[0].id for st in fn.body if isinstance(st, ast.Assign) and st.value is c2]
         if len(at) != 1 or len(back_name) != 1 or not c2.args or not isinstance(c2.args[0], ast.Name):
             raise Untranslatable('legs are not bound to names')
-        travelling = c2.args[0].id
-        # what travels back must be bound exactly once; it is right iff that binding is the plain product field * fpm
-        binds = [ast.unparse(st.value) for st in fn.body if isinstance(st, ast.Assign) and len(st.targets) == 1
+        return fn, at[0], c2.args[0].id, back_name[0]
+
+    def mask_product():
+        res, fwd, back = run()          # Untranslatable here = not recognised (emitted as true, correspondence widened)
+        fn, at, travelling, back_name = leg_names()
+        # what travels back must be bound exactly once; right iff that binding is the plain product field * fpm
+        binds = [st.value for st in fn.body if isinstance(st, ast.Assign) and len(st.targets) == 1
                  and isinstance(st.targets[0], ast.Name) and st.targets[0].id == travelling]
         if len(binds) != 1:
             raise Untranslatable('array sent back is not bound exactly once')
-        ok = binds[0] in (f'{at[0]} * fpm', f'fpm * {at[0]}')
-        rets = [ast.unparse(r.value) for r in ast.walk(fn) if isinstance(r, ast.Return) and r.value is not None]
-        ret_ok = all(r == back_name[0] or r.startswith(f'({back_name[0]},') for r in rets)
-        return ok and fwd[3] == 'wavefunction' and ret_ok
+        b = binds[0]
+        if isinstance(b, ast.Call) and ast.unparse(b.func) in ('np.multiply', 'numpy.multiply') and len(b.args) == 2:
+            ops = [b.args[0], b.args[1]]
+        elif isinstance(b, ast.BinOp) and isinstance(b.op, ast.Mult):
+            ops = [b.left, b.right]
+        else:
+            raise Untranslatable('array sent back is not a product')
+        texts = [ast.unparse(_strip(o)) for o in ops]
+        if at not in texts:
+            raise Untranslatable('product does not involve the focal field')
+        other = ops[1 - texts.index(at)]
+        ot = ast.unparse(_strip(other))
+        if ot == 'fpm':
+            ok = True
+        elif 'fpm' in ot and any(w in ot for w in ('conj', 'abs', '**', 'real', 'imag', 'angle')):
+            ok = False                  # recognised and wrong: the mask must enter linearly, untouched
+        else:
+            raise Untranslatable(f'mask factor {ot[:40]} not recognised')
+        rets = [ast.unparse(r.value) for r in ast.walk(fn) if isinstance(r, ast.Return) and r.value is not None
+                and not isinstance(r.value, ast.Tuple)]
+        if any(r != back_name for r in rets):
+            return False
+        return ok and fwd[3] == 'wavefunction'
     fact3(g, 'fpmMaskIsPlainProduct', 'prysm/propagation.py:to_fpm_and_back', lambda: get_def(pr, 'to_fpm_and_back'), mask_product)
+
+    def return_more_order():
+        res, fwd, back = run()
+        fn, at, travelling, back_name = leg_names()
+        rm = res.get('return_more')
+        if rm is None:
+            raise Untranslatable('no return_more branch')
+        return rm == [back_name, at, travelling]
+    fact3(g, 'fpmReturnMoreIsBackAtAfter', 'prysm/propagation.py:to_fpm_and_back', lambda: get_def(pr, 'to_fpm_and_back'),
+          return_more_order)
+
+    def wavefront_mask():
+        """the `isinstance(fpm, Wavefront)` branch executed symbolically: shape and sampling from the mask object, mask
+        unwrapped to its array, and then EXACTLY the leg arguments of the ndarray branch"""
+        _, fwd_a, back_a = run('ndarray')
+        _, fwd_w, back_w = run('wavefront')
+        fn = get_def(pr, 'to_fpm_and_back')
+        ifs = [st for st in fn.body if isinstance(st, ast.If) and 'isinstance(fpm, Wavefront)' in ast.unparse(st.test)]
+        if len(ifs) != 1:
+            raise Untranslatable('no single isinstance(fpm, Wavefront) branch')
+        unwrapped = any(isinstance(st, ast.Assign) and ast.unparse(st.targets[0]) == 'fpm' and ast.unparse(st.value) == 'fpm.data'
+                        for st in ifs[0].body)
+        return unwrapped and fwd_a[:3] == fwd_w[:3] and back_a[:3] == back_w[:3]
+    fact3(g, 'fpmWavefrontMaskSameLegs', 'prysm/propagation.py:to_fpm_and_back', lambda: get_def(pr, 'to_fpm_and_back'),
+          wavefront_mask)
 
     def wf_wrapper():
         fn = get_def(pr, 'Wavefront.to_fpm_and_back')
@@ -82,8 +137,41 @@ def generate(repo):
             raise Untranslatable('wrapper does not call to_fpm_and_back exactly once')
         names, args = positional(cs[0], get_def(pr, 'to_fpm_and_back'))
         want = {'wavefunction': 'self.data', 'dx': 'self.dx', 'efl': 'efl', 'wavelength': 'self.wavelength', 'fpm': 'fpm',
-                'fpm_dx': 'fpm_dx', 'shift': 'shift', 'method': 'method'}
-        return all(args.get(k) is not None and ast.unparse(args[k]) == v for k, v in want.items())
+                'fpm_dx': 'fpm_dx', 'shift': 'shift', 'method': 'method', 'return_more': 'return_more'}
+        known = set(want.values())
+        ok = True
+        for k, v in want.items():
+            if args.get(k) is None:
+                raise Untranslatable(f'argument {k} not passed')
+            got = ast.unparse(_strip(args[k]))
+            if got == v:
+                continue
+            if got in known:
+                ok = False            # recognised and wrong: another of the wrapper's own quantities is passed
+            else:
+                raise Untranslatable(f'argument {k} = {got[:30]} not recognised')
+        # the containers handed back: the pupil-plane result with the pupil's dx / space, the focal planes with fpm_dx / 'psf'
+        init = get_def(pr, 'Wavefront.__init__')
+        wcalls = [n for n in ast.walk(fn) if isinstance(n, ast.Call) and ast.unparse(n.func) == 'Wavefront']
+        if len(wcalls) != 4:
+            raise Untranslatable('expected four Wavefront constructions (result, and three planes with return_more)')
+        for w in wcalls:
+            _, wa = positional(w, init, skip_self=True)
+            name = ast.unparse(wa['cmplx_field'])
+            dx_t, sp_t = ast.unparse(_strip(wa['dx'])), ast.unparse(wa['space'])
+            if name in ('pak', 'at_next_pupil'):
+                exp = ('self.dx', 'self.space')
+            elif name in ('at_fpm', 'after_fpm'):
+                exp = ('fpm_dx', "'psf'")
+            else:
+                raise Untranslatable(f'unknown plane {name}')
+            if (dx_t, sp_t) == exp:
+                continue
+            if dx_t in ('self.dx', 'fpm_dx') and sp_t in ('self.space', "'psf'", "'pupil'"):
+                ok = False
+            else:
+                raise Untranslatable('container arguments not recognised')
+        return ok
     fact3(g, 'wavefrontFpmWrapperPassesThrough', 'prysm/propagation.py:Wavefront.to_fpm_and_back',
           lambda: get_def(pr, 'Wavefront.to_fpm_and_back'), wf_wrapper)
 
@@ -109,17 +197,32 @@ def generate(repo):
             # the mask handed down must have been replaced by its complement `1 - mask` beforehand
             comps = [st for st in fn.body if isinstance(st, ast.Assign) and len(st.targets) == 1
                      and isinstance(st.targets[0], ast.Name) and st.targets[0].id == m.id and st.lineno < c.lineno]
-            comp_ok = any(isinstance(st.value, ast.BinOp) and isinstance(st.value.op, ast.Sub)
-                          and isinstance(st.value.left, ast.Constant) and st.value.left.value == 1
-                          and ast.unparse(st.value.right) == 'fpm' for st in comps)
+            def is_complement(v):
+                if isinstance(v, ast.BinOp) and isinstance(v.op, ast.Sub) and isinstance(v.left, ast.Constant) \
+                        and v.left.value == 1 and ast.unparse(_strip(v.right)) == 'fpm':
+                    return True
+                return isinstance(v, ast.Call) and ast.unparse(v.func) in ('np.subtract', 'numpy.subtract') and len(v.args) == 2 \
+                    and isinstance(v.args[0], ast.Constant) and v.args[0].value == 1 and ast.unparse(_strip(v.args[1])) == 'fpm'
+            comp_ok = any(is_complement(st.value) for st in comps)
+            if comps and not comp_ok and not all(ast.unparse(st.value) in ('fpm.data', 'fpm') for st in comps):
+                raise Untranslatable('mask is re-bound by something that is not recognised')
             ok = ok and comp_ok and ast.unparse(kw.get('efl')) == 'efl' and ast.unparse(kw.get('fpm_dx')) == 'fpm_dx'
         # field at the Lyot plane = incoming field minus the returned one
+        def sides(v):
+            l, r = v.left, v.right
+            neg = False
+            if isinstance(l, ast.UnaryOp) and isinstance(l.op, ast.USub):      # -field.data + self.data
+                l, neg = l.operand, True
+            return ast.unparse(l), ast.unparse(r), neg
         diffs = [st.value for st in fn.body if isinstance(st, ast.Assign) and isinstance(st.value, ast.BinOp)
-                 and {ast.unparse(st.value.left), ast.unparse(st.value.right)} == {'self.data', f'{field}.data'}]
+                 and set(sides(st.value)[:2]) == {'self.data', f'{field}.data'}]
         if len(diffs) != 1:
             raise Untranslatable('no combination of self.data with the returned field')
         d = diffs[0]
-        ok = ok and isinstance(d.op, ast.Sub) and ast.unparse(d.left) == 'self.data'
+        l, r, neg = sides(d)
+        minus_ok = (isinstance(d.op, ast.Sub) and l == 'self.data' and not neg) or (isinstance(d.op, ast.Add) and neg and r == 'self.data')
+        ok = ok and minus_ok
+        # the Lyot stop multiplies that difference; a Wavefront stop is unwrapped to its array first
         return ok
     fact3(g, 'babinetIsFieldMinusReturnOfComplement', 'prysm/propagation.py:Wavefront.babinet',
           lambda: get_def(pr, 'Wavefront.babinet'), babinet)
